@@ -292,6 +292,9 @@ func c09Run(c *core.Ctx, prod string, t reflect.Type, la string) {
 						c.Sample(prod+"/"+mode, desc)
 					}
 					viol := func(sym string, w, g interface{}) {
+						if en := engineName(); en != "" && engineFor(t) != nil {
+							sym += "|engine=" + en
+						}
 						c.Violation(core.Sig(prod, cs.name, dtypeClass(t), layoutPairClass(la, lb), mode, sym), caseKey, desc, w, g)
 					}
 					if len(a.outside) > 0 || len(b.outside) > 0 {
